@@ -82,6 +82,18 @@ def own_corpus():
                                             {"id": 1, "kind": "MinimumTrials", "trials": 6}],
         "blocks": [{"id": 0, "kind": "CrossBlock", "design": [0, 1], "crossing": [0, 1], "constraints": [0, 1], "rcc": False}],
         "main": 0}))
+    # excluded combinations + several rounds of the crossing (Repeat, Merge in REPEAT mode): where a round ends
+    # depends on the crossing size WITH exclusions (seeded change C17-round-length-ignores-exclusions)
+    out.append(("exclude-incomplete-repeat", {
+        "factors": [b3, a], "constraints": [{"id": 0, "kind": "Exclude", "level": [0, "r"]},
+                                            {"id": 1, "kind": "MinimumTrials", "trials": 8}],
+        "blocks": [{"id": 0, "kind": "CrossBlock", "design": [0], "crossing": [0], "constraints": [0], "rcc": False},
+                   {"id": 1, "kind": "Repeat", "block": 0, "constraints": [1]}],
+        "main": 1}))
+    out.append(("exclude-incomplete-multi-repeat", {
+        "factors": [b3, a], "constraints": [{"id": 0, "kind": "Exclude", "level": [0, "r"]}],
+        "blocks": [{"id": 0, "kind": "MultiCrossBlock", "design": [0, 1], "crossings": [[0, 1], [0]], "constraints": [0], "rcc": False,
+                    "mode": "repeat", "alignment": "equal preamble"}], "main": 0}))
     # pins
     for idx in (0, -1, 3, 4, -4, -5):
         out.append(("pin-%d" % idx, {
